@@ -14,7 +14,10 @@ EXTRA = ["x1", "x2", "x3"]
 LOGICS = [None, None, None, "common.undo_redo", "common.permanent", "common.ignore_changes"]
 
 
-def gen_rulebook(rng, depth=3, prefix="undo", allow=("global", "ordered", "rewrite", "logic", "negform", "catchall"), lvl=0, tag=""):
+DEFAULT_ALLOW = ("global", "ordered", "rewrite", "logic", "negform", "catchall")
+
+
+def gen_rulebook(rng, depth=3, prefix="undo", allow=DEFAULT_ALLOW, lvl=0, tag=""):
     """-> list[Rule]"""
     n = rng.randint(1, 3 if lvl else 4)
     rules = []
@@ -72,6 +75,14 @@ def gen_rulebook(rng, depth=3, prefix="undo", allow=("global", "ordered", "rewri
             r.glob = True
             r.logic = None
             r.ordered = False
+        if ("overlap" in allow and r.children and "*" in toks and not r.children[0].rewrite and not any(c.ordered for c in r.children)
+                and rng.random() < 0.5):
+            # a more specific rule in front of a generic one (`interface */Tunnel.+/` before `interface *`): rows it matches
+            # take their children rules from BOTH rules
+            st = list(toks)
+            st[st.index("*")] = "*/k[12]/"
+            sub_allow = tuple(a for a in allow if a in ("logic", "flat"))
+            rules.append(RB.Rule(" ".join(st), children=gen_rulebook(rng, depth, prefix, sub_allow, lvl + 1, tag + str(i) + "s")))
         rules.append(r)
     if "catchall" in allow and rng.random() < (0.35 if lvl else 0.25):
         rules.append(RB.Rule("~", glob=("global" in allow and rng.random() < 0.6)))
@@ -85,6 +96,9 @@ def instantiate(rng, pat, long_rows=True):
     for t in toks:
         if t[0] == "lit":
             words.append(t[1])
+        elif t[0] == "starre":
+            import re
+            words.append(rng.choice([k for k in KEYS if re.fullmatch(t[1], k)]))
         else:
             words.append(rng.choice(KEYS))
     if tail == "tilde":
